@@ -1,12 +1,20 @@
 import PsVerif.Model.AFM
 /-!
-Proofs about the AFM model (`PsVerif.Model.AFM`):
+Proofs about the AFM model (`PsVerif.Model.AFM`), used by `PsVerif.Props.C15`:
 
-* part 1: binary64 facts – the float made from an exactly representable integer decodes to
-  that integer (`ofDyadic_rep`), re-encoding a float with non-negative exponent gives the
-  float back (`K1`), rounding/flooring are idempotent;
-* part 2: text facts – lines, fields, decimal numbers;
-* part 3: the reader run over the writer's output.
+* part 1: binary64 facts – the float made from an exactly representable integer decodes to that
+  integer (`ofDyadic_rep`), re-encoding a float with non-negative exponent gives the float back
+  (`K1`); `roundF` (the effect of `%.0f` and `ParseFloat`), `floorF`, `ceilF` are idempotent and
+  `roundF` fixes floors and ceilings;
+* part 2: text facts – lines, `strings.Fields` (tokens), `strings.Split`, decimal numbers,
+  `parseFloat (fmt0 x) = ok (roundF x)`, `parseFloat (italicText x) = ok (roundI x)`;
+* part 3: the reader run over the writer's output, line by line and section by section; the glyph
+  map and the encoding are rebuilt (`insAll_rebuild`, `encAll_rebuild`); main result
+  `readCore_write : WF m → readCore (write m) = ok (roundM m)` (glyph lines in any order:
+  `readLines_inOrder`); the integral domain `Representable`;
+* part 4: every value the reader returns satisfies `WF` (`readCore_WF`);
+* part 5: `roundM` is idempotent and keeps `WF`;
+* part 6: `\r\n` line ends; part 7: the reader only looks at the tokens of a line.
 -/
 namespace PsVerif.Proofs.AFM
 open PsVerif.Base PsVerif.Base.SoftFloat PsVerif.Model
@@ -2673,13 +2681,16 @@ theorem readLines_nil (st : St) : readLines st [] = .ok st := rfl
 
 theorem bind_ok {α β : Type} (a : α) (f : α → Res β) : (Res.ok a).bind f = f a := rfl
 
-theorem readCore_write (m : Metrics) (h : WF m) : readCore (write m) = .ok (roundM m) := by
+/-- the written lines with the glyph lines in the order `es` -/
+def linesInOrder (m : Metrics) (es : List (Bytes × Glyph)) : List Bytes :=
+  headLines m (italicText m.italicAngle) ++ es.map (fun e => glyphLine m.encoding e.1 e.2) ++ tailLines m
+
+/-- the reader run over the written lines, the glyph lines in any order -/
+theorem readLines_inOrder (m : Metrics) (h : WF m) (es : List (Bytes × Glyph)) (hp : es.Perm m.glyphs) :
+    readLines ⟨emptyMetrics, false, false⟩ (linesInOrder m es) = .ok ⟨roundM m, false, false⟩ := by
   have hwf := h
   obtain ⟨hs, hg, henc, hfn, hfull, hver, hnot, hkern⟩ := h
-  have hia : NoNL (italicText m.italicAngle) := NoNL_plain _ (italicText_plain _)
-  unfold readCore write
-  rw [scanLines_unlines _ (lines_NoNL m hwf _ hia)]
-  unfold writeLinesWith headLines tailLines
+  unfold linesInOrder headLines tailLines
   dsimp only
   simp only [readLines_append]
   -- first three lines
@@ -2722,14 +2733,14 @@ theorem readCore_write (m : Metrics) (h : WF m) : readCore (write m) = .ok (roun
     readLine_CapHeight, readLine_XHeight, readLine_Ascender, readLine_Descender, readLine_StartCharMetrics,
     bind_ok]
   -- glyphs
-  obtain ⟨hew, hend⟩ := entsOf_wf m hwf
-  rw [glyphLines_eq, readLines_glyphs m.encoding (by rw [henc.1]; decide) (entsOf m) _ false hew hend
-    (fun e _ => rfl)]
+  have hew : ∀ e ∈ es, isName e.1 = true ∧ GlyphWF e.2 := fun e he => hg e (hp.mem_iff.mp he)
+  have hend : (es.map (·.1)).Nodup := (List.Perm.nodup_iff (hp.map _)).mpr (sorted_keys_nodup _ hs)
+  rw [readLines_glyphs m.encoding (by rw [henc.1]; decide) es _ false hew hend (fun e _ => rfl)]
   simp only [bind_ok, readLine_EndCharMetrics]
-  have hG : insAll ([] : List (Bytes × Glyph)) ((entsOf m).map roundE) = m.glyphs.map roundE :=
-    insAll_rebuild m.glyphs (entsOf m) hs (entsOf_perm m hs)
-  have hE : encAll (List.replicate 256 notdef) m.encoding (entsOf m) = m.encoding :=
-    encAll_rebuild m hs henc (entsOf m) (entsOf_perm m hs)
+  have hG : insAll ([] : List (Bytes × Glyph)) (es.map roundE) = m.glyphs.map roundE :=
+    insAll_rebuild m.glyphs es hs hp
+  have hE : encAll (List.replicate 256 notdef) m.encoding es = m.encoding :=
+    encAll_rebuild m hs henc es hp
   -- kerning
   by_cases hk : m.kern = []
   · simp only [hk, ne_eq, not_true_eq_false, if_false, readLines_nil, bind_ok, readLine_EndFontMetrics]
@@ -2739,5 +2750,768 @@ theorem readCore_write (m : Metrics) (h : WF m) : readCore (write m) = .ok (roun
     rw [readLines_kern m.kern _ hkern]
     simp only [bind_ok, readLine_EndKernPairs, readLine_EndKernData, readLine_EndFontMetrics]
     simp only [emptyMetrics, hG, hE, roundM, List.nil_append]
+
+theorem writeLines_eq (m : Metrics) :
+    writeLinesWith m (italicText m.italicAngle) = linesInOrder m (entsOf m) := by
+  unfold writeLinesWith linesInOrder
+  rw [glyphLines_eq]
+
+theorem readCore_write (m : Metrics) (h : WF m) : readCore (write m) = .ok (roundM m) := by
+  have hia : NoNL (italicText m.italicAngle) := NoNL_plain _ (italicText_plain _)
+  unfold readCore write
+  rw [scanLines_unlines _ (lines_NoNL m h _ hia), writeLines_eq, readLines_inOrder m h _ (entsOf_perm m h.1)]
+  rfl
+
+/-- the glyph lines may come in any order (`Write` sorts them by code, then name) -/
+theorem readCore_inOrder (m : Metrics) (h : WF m) (es : List (Bytes × Glyph)) (hp : es.Perm m.glyphs) :
+    readCore (unlines (linesInOrder m es)) = .ok (roundM m) := by
+  have hia : NoNL (italicText m.italicAngle) := NoNL_plain _ (italicText_plain _)
+  have hmem : ∀ l ∈ linesInOrder m es, l ∈ writeLinesWith m (italicText m.italicAngle) := by
+    intro l hl
+    rw [writeLines_eq]
+    unfold linesInOrder at hl ⊢
+    simp only [List.mem_append, List.mem_map] at hl ⊢
+    rcases hl with (hl | ⟨e, he, rfl⟩) | hl
+    · exact Or.inl (Or.inl hl)
+    · exact Or.inl (Or.inr ⟨e, (entsOf_perm m h.1).mem_iff.mpr (hp.mem_iff.mp he), rfl⟩)
+    · exact Or.inr hl
+  unfold readCore
+  rw [scanLines_unlines _ (fun l hl => lines_NoNL m h _ hia l (hmem l hl)), readLines_inOrder m h es hp]
+  rfl
+
+/-! ### the integral domain -/
+
+theorem toInt64_ofInt (n : Int) (h : n.natAbs < 2 ^ 53) : toInt64 (ofInt n) = some n := by
+  obtain ⟨a, b, c, d, e⟩ := ofDyadic_rep (decide (n < 0)) n.natAbs (rep_small _ h)
+  unfold toInt64
+  rw [ofInt_eq, a, b]
+  simp only [Bool.or_self, Bool.false_eq_true, if_false]
+  rw [e, c]
+  by_cases hneg : n < 0
+  · simp only [hneg, decide_true, if_true]
+    have : -(n.natAbs : Int) = n := by omega
+    rw [this, if_pos (by omega)]
+  · simp only [hneg, decide_false, Bool.false_eq_true, if_false]
+    have : (n.natAbs : Int) = n := by omega
+    rw [this, if_pos (by omega)]
+
+theorem intOr0_ofInt (n : Int) (h : n.natAbs < 2 ^ 53) : intOr0 (ofInt n) = n := by
+  unfold intOr0; rw [toInt64_ofInt n h]; rfl
+
+/-- a float that is an integer of magnitude below 2^53 -/
+def IntF (x : UInt64) : Prop := x = ofInt (intOr0 x) ∧ (intOr0 x).natAbs < 2 ^ 53
+
+instance (x : UInt64) : Decidable (IntF x) := by unfold IntF; exact inferInstance
+
+theorem IntF_roundF (x : UInt64) (h : IntF x) : roundF x = x := by
+  rw [h.1]; exact roundF_ofInt _ h.2
+theorem IntF_floorF (x : UInt64) (h : IntF x) : floorF x = x := by
+  rw [h.1]; exact floorF_ofInt _ h.2
+theorem IntF_ceilF (x : UInt64) (h : IntF x) : ceilF x = x := by
+  rw [h.1]; exact ceilF_ofInt _ h.2
+
+theorem IntF_notNaN (x : UInt64) (h : IntF x) : isNaN x = false := by
+  rw [h.1, ofInt_eq]
+  exact (ofDyadic_rep _ _ (rep_small _ h.2)).1
+
+theorem IntF_roundI (x : UInt64) (h : IntF x) : roundI x = x := by
+  unfold roundI
+  rw [IntF_notNaN x h, IntF_roundF x h]
+  simp
+
+instance (i : Int) : Decidable (Int16 i) := by unfold Int16; exact inferInstance
+instance {β : Type} (l : List (Bytes × β)) : Decidable (Sorted l) := by unfold Sorted; exact inferInstance
+instance (g : Glyph) : Decidable (GlyphWF g) := by unfold GlyphWF; exact inferInstance
+instance (M : List Bytes) : Decidable (EncInj M) := by unfold EncInj; exact inferInstance
+instance (m : Metrics) : Decidable (EncOK m) := by unfold EncOK; exact inferInstance
+instance (m : Metrics) : Decidable (WF m) := by unfold WF; exact inferInstance
+
+/-- the domain of the round-trip theorem: a value the reader can produce (names are tokens, texts
+are words joined by single spaces, widths and kerning adjustments are 16-bit integers, the maps are
+sorted, the encoding names each glyph at most once and only glyphs) all of whose numbers are
+integers below 2^53 in magnitude -/
+def Representable (m : Metrics) : Prop :=
+  WF m ∧ IntF m.capHeight ∧ IntF m.xHeight ∧ IntF m.ascent ∧ IntF m.descent ∧
+  IntF m.underlinePosition ∧ IntF m.underlineThickness ∧ IntF m.italicAngle ∧
+  ∀ e ∈ m.glyphs, IntF e.2.bbox.llx ∧ IntF e.2.bbox.lly ∧ IntF e.2.bbox.urx ∧ IntF e.2.bbox.ury
+
+instance (m : Metrics) : Decidable (Representable m) := by unfold Representable; exact inferInstance
+
+theorem map_eq_self {α : Type} (l : List α) (f : α → α) (h : ∀ a ∈ l, f a = a) : l.map f = l := by
+  induction l with
+  | nil => rfl
+  | cons a as ih => rw [List.map_cons, h a (by simp), ih (fun b hb => h b (by simp [hb]))]
+
+theorem roundM_of_representable (m : Metrics) (h : Representable m) : roundM m = m := by
+  obtain ⟨_, h1, h2, h3, h4, h5, h6, h7, hg⟩ := h
+  unfold roundM
+  rw [IntF_roundF _ h1, IntF_roundF _ h2, IntF_roundF _ h3, IntF_roundF _ h4, IntF_roundF _ h5,
+    IntF_roundF _ h6, IntF_roundI _ h7]
+  have : m.glyphs.map roundE = m.glyphs := by
+    apply map_eq_self
+    intro e he
+    obtain ⟨a, b, c, d⟩ := hg e he
+    obtain ⟨n, g⟩ := e
+    simp only [roundE, roundG] at a b c d ⊢
+    rw [IntF_floorF _ a, IntF_floorF _ b, IntF_ceilF _ c, IntF_ceilF _ d]
+  rw [this]
+
+/-- writing and re-reading a representable value gives the value back -/
+theorem readCore_write_representable (m : Metrics) (h : Representable m) : readCore (write m) = .ok m := by
+  rw [readCore_write m h.1, roundM_of_representable m h]
+
+theorem read_eq (t : Bytes) : AFM.read t = readCore t := rfl
+
+/-- the value of the package's own round-trip test, with a version and a notice added -/
+def exampleMetrics : Metrics :=
+  { glyphs := [
+      (notdef, { widthX := ofInt 500, bbox := ⟨ofInt 0, ofInt 0, ofInt 500, ofInt 800⟩, ligs := [] }),
+      ([102], { widthX := ofInt 400, bbox := ⟨ofInt 20, ofInt (-100), ofInt 500, ofInt 800⟩,
+                ligs := [([102], [102, 102])] }),
+      ([102, 102], { widthX := ofInt 700, bbox := ⟨ofInt 20, ofInt 100, ofInt 750, ofInt 810⟩, ligs := [] }),
+      ([113, 114], { widthX := ofInt 1000, bbox := ⟨ofInt 0, ofInt 0, ofInt 1000, ofInt 1000⟩, ligs := [] })],
+    encoding := [notdef, [102], notdef, [102, 102]] ++ List.replicate 252 notdef,
+    fontName := [84, 101, 115, 116],                               -- "Test"
+    fullName := [84, 101, 115, 116, 32, 70, 111, 110, 116],        -- "Test Font"
+    version := [48, 48, 49, 46, 48, 48, 48],                       -- "001.000"
+    notice := [40, 99, 41, 32, 49, 57, 57, 57, 32, 88],            -- "(c) 1999 X"
+    capHeight := ofInt 750, xHeight := ofInt 451, ascent := ofInt 812, descent := ofInt (-203),
+    underlinePosition := ofInt (-400), underlineThickness := ofInt 5, italicAngle := ofInt (-6),
+    isFixedPitch := false,
+    kern := [⟨[102], [102], -20⟩] }
+
+theorem exampleMetrics_representable : Representable exampleMetrics := by decide +kernel
+
+/-! ## part 4: every value the reader returns is well-formed -/
+
+theorem upsert_mem_gen {β : Type} (k : Bytes) (v : β) (l : List (Bytes × β)) :
+    ∀ e ∈ upsert k v l, e = (k, v) ∨ e ∈ l := by
+  induction l with
+  | nil => intro e he; simp [upsert] at he; exact Or.inl he
+  | cons a as ih =>
+    obtain ⟨k', v'⟩ := a
+    intro e he
+    unfold upsert at he
+    split at he
+    · simp only [List.mem_cons] at he
+      rcases he with he | he
+      · exact Or.inl he
+      · right; simp [he]
+    · split at he
+      · simp only [List.mem_cons] at he
+        rcases he with he | he | he
+        · exact Or.inl he
+        · right; simp [he]
+        · right; simp [he]
+      · simp only [List.mem_cons] at he
+        rcases he with he | he
+        · right; simp [he]
+        · rcases ih e he with h | h
+          · exact Or.inl h
+          · right; simp [h]
+
+theorem upsert_sorted_gen {β : Type} (k : Bytes) (v : β) (l : List (Bytes × β)) (hs : Sorted l) :
+    Sorted (upsert k v l) := by
+  induction l with
+  | nil => simp [upsert, Sorted]
+  | cons a as ih =>
+    obtain ⟨k', v'⟩ := a
+    have hs' := List.pairwise_cons.mp hs
+    unfold upsert
+    by_cases hk : k' = k
+    · rw [if_pos hk]
+      unfold Sorted
+      rw [List.pairwise_cons]
+      refine ⟨fun e he => ?_, hs'.2⟩
+      have := hs'.1 e he
+      simp only at this ⊢
+      rw [← hk]; exact this
+    · rw [if_neg hk]
+      by_cases hlt : Query.nameLt k k' = true
+      · rw [if_pos hlt]
+        unfold Sorted
+        rw [List.pairwise_cons]
+        refine ⟨?_, hs⟩
+        intro e he
+        simp only [List.mem_cons] at he
+        rcases he with he | he
+        · subst he; exact hlt
+        · exact nameLt_trans _ _ _ hlt (hs'.1 e he)
+      · rw [if_neg hlt]
+        unfold Sorted
+        rw [List.pairwise_cons]
+        refine ⟨?_, ih hs'.2⟩
+        intro e he
+        rcases upsert_mem_gen k v as e he with he | he
+        · subst he
+          exact nameLt_total _ _ (by simpa using hlt) (fun e => hk e.symm)
+        · exact hs'.1 e he
+
+theorem lookup_isSome_iff {β : Type} (k : Bytes) (l : List (Bytes × β)) :
+    (lookup k l).isSome = true ↔ ∃ e ∈ l, e.1 = k := by
+  constructor
+  · intro h
+    cases hl : lookup k l with
+    | none => rw [hl] at h; simp at h
+    | some v => exact ⟨(k, v), lookup_some_mem k v l hl, rfl⟩
+  · intro ⟨e, he, hk⟩
+    cases hl : lookup k l with
+    | none => exact absurd hk ((lookup_none_iff k l).mp hl e he)
+    | some v => rfl
+
+/-! ### one key/value group -/
+
+/-- what is known about the local variables of a character metrics line -/
+def CInv (c : CharLine) : Prop :=
+  (c.name = [] ∨ isName c.name = true) ∧ Int16 c.width ∧ Sorted c.ligs ∧
+  ∀ e ∈ c.ligs, isName e.1 = true ∧ isName e.2 = true
+
+theorem fields_names (kv : Bytes) (h : 59 ∉ kv) : ∀ t ∈ fields kv, isName t = true := by
+  intro t ht
+  unfold isName
+  rw [fields_isTok kv t ht]
+  have : t.contains 59 = false := by
+    cases hc : t.contains 59 with
+    | false => rfl
+    | true =>
+      rw [List.contains_iff_mem] at hc
+      exact absurd (fields_sub kv t ht 59 hc) h
+  rw [this]; rfl
+
+theorem bbox_bind (c c' : CharLine) (r1 r2 r3 r4 : Res UInt64)
+    (h : (r1.bind fun x => r2.bind fun y => r3.bind fun z => r4.bind fun w =>
+      Res.ok { c with bbox := ⟨x, y, z, w⟩ }) = .ok c') : ∃ bb, c' = { c with bbox := bb } := by
+  cases r1 <;> cases r2 <;> cases r3 <;> cases r4 <;> simp only [Res.bind, Res.ok.injEq] at h <;>
+    first | exact ⟨_, h.symm⟩ | exact absurd h (by simp)
+
+theorem charKV_inv (c c' : CharLine) (kv : Bytes) (h59 : 59 ∉ kv) (hc : CInv c)
+    (h : charKV c kv = .ok c') : CInv c' := by
+  have hnames := fields_names kv h59
+  obtain ⟨h1, h2, h3, h4⟩ := hc
+  unfold charKV at h
+  cases hf : fields kv with
+  | nil => rw [hf] at h; simp only [Res.ok.injEq] at h; subst h; exact ⟨h1, h2, h3, h4⟩
+  | cons k t =>
+    cases t with
+    | nil => rw [hf] at h; simp only [Res.ok.injEq] at h; subst h; exact ⟨h1, h2, h3, h4⟩
+    | cons v rest =>
+      rw [hf] at h hnames
+      have hv : isName v = true := hnames v (by simp)
+      simp only at h
+      by_cases hkC : k = kC
+      · rw [if_pos hkC] at h
+        split at h
+        · simp only [Res.ok.injEq] at h; subst h; exact ⟨h1, h2, h3, h4⟩
+        · exact absurd h (by simp)
+      · rw [if_neg hkC] at h
+        by_cases hkW : k = kWX
+        · rw [if_pos hkW] at h
+          split at h
+          · simp only [Res.ok.injEq] at h; subst h; exact ⟨h1, wrap16_range _, h3, h4⟩
+          · exact absurd h (by simp)
+        · rw [if_neg hkW] at h
+          by_cases hkN : k = kN
+          · rw [if_pos hkN] at h
+            simp only [Res.ok.injEq] at h; subst h; exact ⟨Or.inr hv, h2, h3, h4⟩
+          · rw [if_neg hkN] at h
+            by_cases hkB : k = kB
+            · rw [if_pos hkB] at h
+              split at h
+              · obtain ⟨bb, hbb⟩ := bbox_bind _ _ _ _ _ _ h
+                subst hbb; exact ⟨h1, h2, h3, h4⟩
+              · simp only [Res.ok.injEq] at h; subst h; exact ⟨h1, h2, h3, h4⟩
+            · rw [if_neg hkB] at h
+              by_cases hkL : k = kL
+              · rw [if_pos hkL] at h
+                cases rest with
+                | nil => simp only [Res.ok.injEq] at h; subst h; exact ⟨h1, h2, h3, h4⟩
+                | cons l rest' =>
+                  simp only [Res.ok.injEq] at h; subst h
+                  have hl : isName l = true := hnames l (by simp)
+                  refine ⟨h1, h2, upsert_sorted_gen _ _ _ h3, ?_⟩
+                  intro e he
+                  rcases upsert_mem_gen _ _ _ e he with he | he
+                  · subst he; exact ⟨hv, hl⟩
+                  · exact h4 e he
+              · rw [if_neg hkL] at h
+                simp only [Res.ok.injEq] at h; subst h; exact ⟨h1, h2, h3, h4⟩
+
+theorem charKVs_inv (kvs : List Bytes) : ∀ (c c' : CharLine), (∀ kv ∈ kvs, 59 ∉ kv) → CInv c →
+    charKVs c kvs = .ok c' → CInv c' := by
+  induction kvs with
+  | nil => intro c c' _ hc h; simp only [charKVs, Res.ok.injEq] at h; subst h; exact hc
+  | cons kv rest ih =>
+    intro c c' h59 hc h
+    unfold charKVs at h
+    cases hk : charKV c kv with
+    | ok c1 =>
+      rw [hk] at h
+      simp only [Res.bind] at h
+      exact ih c1 c' (fun kv' hkv' => h59 kv' (by simp [hkv'])) (charKV_inv c c1 kv (h59 kv (by simp)) hc hk) h
+    | error => rw [hk] at h; simp [Res.bind] at h
+    | unsupported => rw [hk] at h; simp [Res.bind] at h
+
+theorem CInv_init : CInv {} := by
+  refine ⟨Or.inl rfl, by decide, by simp [Sorted], by intro e he; simp at he⟩
+
+/-! ### a character metrics line -/
+
+theorem encInj_set (E : List Bytes) (c : Nat) (name : Bytes) (P : Bytes → Prop) (hinj : EncInj E)
+    (hmem : ∀ n ∈ E, n = notdef ∨ P n) (hnew : ¬ P name) : EncInj (E.set c name) := by
+  unfold EncInj at hinj ⊢
+  rw [List.pairwise_iff_getElem] at hinj ⊢
+  intro i j hi hj hij
+  have hi' : i < E.length := by simpa using hi
+  have hj' : j < E.length := by simpa using hj
+  rw [List.getElem_set, List.getElem_set]
+  by_cases hci : c = i
+  · have hcj : ¬ c = j := by omega
+    rw [if_pos hci, if_neg hcj]
+    by_cases he : name = E[j]
+    · right
+      rcases hmem E[j] (List.getElem_mem hj') with h | h
+      · rw [he]; exact h
+      · rw [← he] at h; exact absurd h hnew
+    · left; exact he
+  · by_cases hcj : c = j
+    · rw [if_neg hci, if_pos hcj]
+      by_cases he : E[i] = name
+      · right
+        rcases hmem E[i] (List.getElem_mem hi') with h | h
+        · exact h
+        · rw [he] at h; exact absurd h hnew
+      · left; exact he
+    · rw [if_neg hci, if_neg hcj]
+      exact hinj i j hi' hj' hij
+
+theorem GlyphWF_new (w : Int) (hw : Int16 w) (bb : Rect) (ligs : List (Bytes × Bytes)) (hs : Sorted ligs)
+    (hl : ∀ e ∈ ligs, isName e.1 = true ∧ isName e.2 = true) :
+    GlyphWF { widthX := ofInt w, bbox := bb, ligs := ligs } := by
+  have hn : w.natAbs < 2 ^ 53 := by have := hw.1; have := hw.2; omega
+  refine ⟨⟨?_, ?_⟩, hs, hl⟩
+  · simp only; rw [intOr0_ofInt w hn]
+  · simp only; rw [intOr0_ofInt w hn]; exact hw
+
+theorem charLine_inv (st st' : St) (line : Bytes) (hwf : WF st.m) (h : charLine st line = .ok st') :
+    WF st'.m := by
+  unfold charLine at h
+  cases hk : charKVs {} (splitOn 59 line) with
+  | error => rw [hk] at h; simp [Res.bind] at h
+  | unsupported => rw [hk] at h; simp [Res.bind] at h
+  | ok c =>
+    rw [hk] at h
+    simp only [Res.bind] at h
+    have hc := charKVs_inv _ _ c (fun kv hkv => (splitOn_pieces 59 line kv hkv).1) CInv_init hk
+    split at h
+    · simp only [Res.ok.injEq] at h; subst h; exact hwf
+    · rename_i hcond
+      simp only [Bool.or_eq_true, decide_eq_true_eq, not_or] at hcond
+      obtain ⟨hne, hnone⟩ := hcond
+      have hnone' : lookup c.name st.m.glyphs = none := by
+        cases hl : lookup c.name st.m.glyphs with
+        | none => rfl
+        | some v => rw [hl] at hnone; simp at hnone
+      simp only [Res.ok.injEq] at h; subst h
+      obtain ⟨hs, hg, ⟨hlen, hinj, hmem⟩, hfn, hfull, hver, hnot, hkern⟩ := hwf
+      obtain ⟨c1, c2, c3, c4⟩ := hc
+      have hname : isName c.name = true := by rcases c1 with h | h; exact absurd h hne; exact h
+      have hgw := GlyphWF_new c.width c2 c.bbox c.ligs c3 c4
+      refine ⟨upsert_sorted _ _ _ hs hnone', ?_, ⟨?_, ?_, ?_⟩, hfn, hfull, hver, hnot, hkern⟩
+      · intro e he
+        rcases (upsert_mem _ _ _ hnone' e).mp he with he | he
+        · subst he; exact ⟨hname, hgw⟩
+        · exact hg e he
+      · show (setEnc st.m.encoding c.code c.name).length = 256
+        rw [setEnc_length]; exact hlen
+      · show EncInj (setEnc st.m.encoding c.code c.name)
+        unfold setEnc
+        split
+        · apply encInj_set _ _ _ (fun n => (lookup n st.m.glyphs).isSome = true) hinj hmem
+          rw [hnone']; simp
+        · exact hinj
+      · intro n hn
+        have hmono : ∀ n, (lookup n st.m.glyphs).isSome = true →
+            (lookup n (upsert c.name { widthX := ofInt c.width, bbox := c.bbox, ligs := c.ligs } st.m.glyphs)).isSome = true := by
+          intro n h
+          rw [lookup_isSome_iff] at h ⊢
+          obtain ⟨e, he, hk⟩ := h
+          exact ⟨e, (upsert_mem _ _ _ hnone' e).mpr (Or.inr he), hk⟩
+        have hself : (lookup c.name (upsert c.name { widthX := ofInt c.width, bbox := c.bbox, ligs := c.ligs } st.m.glyphs)).isSome = true := by
+          rw [lookup_isSome_iff]
+          exact ⟨_, (upsert_mem _ _ _ hnone' _).mpr (Or.inl rfl), rfl⟩
+        have hn' : n ∈ setEnc st.m.encoding c.code c.name := hn
+        unfold setEnc at hn'
+        split at hn'
+        · rcases List.mem_or_eq_of_mem_set hn' with h | h
+          · rcases hmem n h with h | h
+            · exact Or.inl h
+            · exact Or.inr (hmono n h)
+          · right; rw [h]; exact hself
+        · rcases hmem n hn' with h | h
+          · exact Or.inl h
+          · exact Or.inr (hmono n h)
+
+/-! ### a header line -/
+
+theorem isText_joinSp (ws : List Bytes) (h : ∀ w ∈ ws, isTok w = true) : isText (joinSp ws) = true := by
+  unfold isText
+  rw [fields_joinSp ws h]
+  simp
+
+theorem numField_inv (st st' : St) (v : Bytes) (set : Metrics → UInt64 → Metrics)
+    (hset : ∀ m x, WF m → WF (set m x)) (hwf : WF st.m) (h : numField st v set = .ok st') : WF st'.m := by
+  unfold numField at h
+  cases hp : parseFloat v with
+  | ok x => rw [hp] at h; simp only [Res.bind, Res.ok.injEq] at h; subst h; exact hset _ _ hwf
+  | error => rw [hp] at h; simp [Res.bind] at h
+  | unsupported => rw [hp] at h; simp [Res.bind] at h
+
+theorem headerLine_inv (st st' : St) (line : Bytes) (hwf : WF st.m) (h : headerLine st line = .ok st') :
+    WF st'.m := by
+  have htok := fields_isTok line
+  unfold headerLine at h
+  cases hf : fields line with
+  | nil => rw [hf] at h; simp only [Res.ok.injEq] at h; subst h; exact hwf
+  | cons k rest =>
+    rw [hf] at h htok
+    dsimp only at h
+    by_cases hk1 : k = kEndKernPairs
+    · rw [if_pos hk1] at h
+      simp only [Res.ok.injEq] at h; subst h; exact hwf
+    · rw [if_neg hk1] at h
+      by_cases hk2 : (st.kernPairs && decide (rest.length = 3) && decide (k = kKPX)) = true
+      · rw [if_pos hk2] at h
+        split at h
+        · rename_i l r a
+          split at h
+          · rename_i x _
+            simp only [Res.ok.injEq] at h; subst h
+            obtain ⟨hs, hg, henc, hfn, hfull, hver, hnot, hkern⟩ := hwf
+            refine ⟨hs, hg, henc, hfn, hfull, hver, hnot, ?_⟩
+            intro kp hkp
+            simp only [List.mem_append, List.mem_singleton] at hkp
+            rcases hkp with hkp | hkp
+            · exact hkern kp hkp
+            · subst hkp
+              exact ⟨htok l (by simp), htok r (by simp), wrap16_range x⟩
+          · exact absurd h (by simp)
+        · simp only [Res.ok.injEq] at h; subst h; exact hwf
+      · rw [if_neg hk2] at h
+        cases rest with
+        | nil => simp only [Res.ok.injEq] at h; subst h; exact hwf
+        | cons v rest' =>
+          dsimp only at h
+          have hv : isTok v = true := htok v (by simp)
+          have hrest : ∀ w ∈ v :: rest', isTok w = true := fun w hw => htok w (by simp [hw])
+          obtain ⟨hs, hg, henc, hfn, hfull, hver, hnot, hkern⟩ := hwf
+          have hnum : ∀ (set : Metrics → UInt64 → Metrics),
+              numField st v set = .ok st' → (∀ m x, WF m → WF (set m x)) → WF st'.m :=
+            fun set hh hset => numField_inv st st' v set hset ⟨hs, hg, henc, hfn, hfull, hver, hnot, hkern⟩ hh
+          have hsame : ∀ s : St, Res.ok s = Res.ok st' → s.m = st.m → WF st'.m := by
+            intro s he hsm
+            simp only [Res.ok.injEq] at he; subst he; rw [hsm]
+            exact ⟨hs, hg, henc, hfn, hfull, hver, hnot, hkern⟩
+          by_cases c1 : k = kFontName
+          · rw [if_pos c1] at h
+            simp only [Res.ok.injEq] at h; subst h
+            exact ⟨hs, hg, henc, Or.inr hv, hfull, hver, hnot, hkern⟩
+          rw [if_neg c1] at h
+          by_cases c2 : k = kFullName
+          · rw [if_pos c2] at h
+            simp only [Res.ok.injEq] at h; subst h
+            exact ⟨hs, hg, henc, hfn, isText_joinSp _ hrest, hver, hnot, hkern⟩
+          rw [if_neg c2] at h
+          by_cases c3 : k = kVersion
+          · rw [if_pos c3] at h
+            simp only [Res.ok.injEq] at h; subst h
+            exact ⟨hs, hg, henc, hfn, hfull, isText_joinSp _ hrest, hnot, hkern⟩
+          rw [if_neg c3] at h
+          by_cases c4 : k = kNotice
+          · rw [if_pos c4] at h
+            simp only [Res.ok.injEq] at h; subst h
+            exact ⟨hs, hg, henc, hfn, hfull, hver, isText_joinSp _ hrest, hkern⟩
+          rw [if_neg c4] at h
+          by_cases c5 : k = kCapHeight
+          · rw [if_pos c5] at h; exact hnum _ h (fun m x hm => hm)
+          rw [if_neg c5] at h
+          by_cases c6 : k = kXHeight
+          · rw [if_pos c6] at h; exact hnum _ h (fun m x hm => hm)
+          rw [if_neg c6] at h
+          by_cases c7 : k = kAscender
+          · rw [if_pos c7] at h; exact hnum _ h (fun m x hm => hm)
+          rw [if_neg c7] at h
+          by_cases c8 : k = kDescender
+          · rw [if_pos c8] at h; exact hnum _ h (fun m x hm => hm)
+          rw [if_neg c8] at h
+          by_cases c9 : k = kUnderlinePosition
+          · rw [if_pos c9] at h; exact hnum _ h (fun m x hm => hm)
+          rw [if_neg c9] at h
+          by_cases c10 : k = kUnderlineThickness
+          · rw [if_pos c10] at h; exact hnum _ h (fun m x hm => hm)
+          rw [if_neg c10] at h
+          by_cases c11 : k = kItalicAngle
+          · rw [if_pos c11] at h; exact hnum _ h (fun m x hm => hm)
+          rw [if_neg c11] at h
+          by_cases c12 : k = kIsFixedPitch
+          · rw [if_pos c12] at h
+            simp only [Res.ok.injEq] at h; subst h
+            exact ⟨hs, hg, henc, hfn, hfull, hver, hnot, hkern⟩
+          rw [if_neg c12] at h
+          by_cases c13 : k = kStartCharMetrics
+          · rw [if_pos c13] at h; exact hsame _ h rfl
+          rw [if_neg c13] at h
+          by_cases c14 : k = kStartKernPairs
+          · rw [if_pos c14] at h; exact hsame _ h rfl
+          rw [if_neg c14] at h
+          exact hsame _ h rfl
+
+theorem readLine_inv (st st' : St) (line : Bytes) (hwf : WF st.m) (h : readLine st line = .ok st') :
+    WF st'.m := by
+  unfold readLine at h
+  split at h
+  · simp only [Res.ok.injEq] at h; subst h; exact hwf
+  · split at h
+    · exact charLine_inv st st' line hwf h
+    · exact headerLine_inv st st' line hwf h
+
+theorem readLines_inv (ls : List Bytes) : ∀ (st st' : St), WF st.m → readLines st ls = .ok st' → WF st'.m := by
+  induction ls with
+  | nil => intro st st' hwf h; simp only [readLines, Res.ok.injEq] at h; subst h; exact hwf
+  | cons l rest ih =>
+    intro st st' hwf h
+    unfold readLines at h
+    cases hl : readLine st l with
+    | ok s1 =>
+      rw [hl] at h
+      simp only [Res.bind] at h
+      exact ih s1 st' (readLine_inv st s1 l hwf hl) h
+    | error => rw [hl] at h; simp [Res.bind] at h
+    | unsupported => rw [hl] at h; simp [Res.bind] at h
+
+theorem WF_empty : WF emptyMetrics := by decide +kernel
+
+/-- every value the reader returns is well-formed -/
+theorem readCore_WF (t : Bytes) (m : Metrics) (h : readCore t = .ok m) : WF m := by
+  unfold readCore at h
+  cases hr : readLines { m := emptyMetrics } (scanLines t) with
+  | ok st =>
+    rw [hr] at h
+    simp only [Res.bind, Res.ok.injEq] at h
+    subst h
+    exact readLines_inv _ _ st WF_empty hr
+  | error => rw [hr] at h; simp [Res.bind] at h
+  | unsupported => rw [hr] at h; simp [Res.bind] at h
+
+/-! ## part 5: a second cycle changes nothing -/
+
+theorem roundI_roundI (x : UInt64) : roundI (roundI x) = roundI x := by
+  unfold roundI
+  by_cases hn : isNaN x = true
+  · simp [hn, isNaN_qNaN]
+  · have hn' : isNaN x = false := by simpa using hn
+    simp only [hn', Bool.false_eq_true, if_false]
+    by_cases hs : (fmtShortest x).isSome = true
+    · simp [hs, hn']
+    · simp only [hs, if_false]
+      have hnr : isNaN (roundF x) = false := by
+        by_cases hi : isInf x = true
+        · have : roundF x = x := by unfold roundF; rw [hn', hi]; rfl
+          rw [this]; exact hn'
+        · exact (roundF_props x hn' (by simpa using hi)).1
+      simp only [hnr, Bool.false_eq_true, if_false, roundF_roundF]
+      split <;> rfl
+
+theorem roundE_roundE (e : Bytes × Glyph) : roundE (roundE e) = roundE e := by
+  simp [roundE, roundG, floorF_floorF, ceilF_ceilF]
+
+theorem roundM_roundM (m : Metrics) : roundM (roundM m) = roundM m := by
+  unfold roundM
+  simp only [roundF_roundF, roundI_roundI, List.map_map]
+  congr 1
+  apply List.map_congr_left
+  intro e _
+  exact roundE_roundE e
+
+theorem lookup_map_roundE (n : Bytes) (G : List (Bytes × Glyph)) :
+    (lookup n (G.map roundE)).isSome = (lookup n G).isSome := by
+  induction G with
+  | nil => rfl
+  | cons e es ih =>
+    obtain ⟨k, g⟩ := e
+    simp only [List.map_cons, roundE, lookup]
+    split
+    · rfl
+    · exact ih
+
+theorem WF_roundM (m : Metrics) (h : WF m) : WF (roundM m) := by
+  obtain ⟨hs, hg, ⟨hlen, hinj, hmem⟩, hfn, hfull, hver, hnot, hkern⟩ := h
+  refine ⟨sorted_map roundG m.glyphs hs, ?_, ⟨hlen, hinj, ?_⟩, hfn, hfull, hver, hnot, hkern⟩
+  · intro e he
+    simp only [roundM, List.mem_map] at he
+    obtain ⟨e0, he0, rfl⟩ := he
+    exact ⟨(hg e0 he0).1, (hg e0 he0).2⟩
+  · intro n hn
+    rcases hmem n hn with h | h
+    · exact Or.inl h
+    · right
+      show (lookup n (m.glyphs.map roundE)).isSome = true
+      rw [lookup_map_roundE]; exact h
+
+
+/-! ## part 6: `\r\n` line ends -/
+
+/-- the same lines, each ended by `\r\n` -/
+def unlinesCRLF : List Bytes → Bytes
+  | [] => []
+  | l :: ls => l ++ 13 :: 10 :: unlinesCRLF ls
+
+theorem dropCR_snoc (l : Bytes) : dropCR (l ++ [13]) = l := by
+  induction l with
+  | nil => rfl
+  | cons b bs ih =>
+    cases bs with
+    | nil => simp [dropCR]
+    | cons c cs =>
+      simp only [List.cons_append] at ih ⊢
+      rw [dropCR, ih]
+
+theorem scanLines_unlinesCRLF (ls : List Bytes) (h : ∀ l ∈ ls, 10 ∉ l ∧ 13 ∉ l) :
+    scanLines (unlinesCRLF ls) = ls := by
+  unfold scanLines
+  induction ls with
+  | nil => rfl
+  | cons l ls ih =>
+    have hl := h l (by simp)
+    have e : unlinesCRLF (l :: ls) = (l ++ [13]) ++ 10 :: unlinesCRLF ls := by simp [unlinesCRLF]
+    have h10 : 10 ∉ l ++ [13] := by simp [hl.1]
+    rw [e, splitLines_append _ _ h10, List.map_cons, dropCR_snoc, ih (fun l' hl' => h l' (by simp [hl']))]
+
+/-- `Write`'s output with `\r\n` line ends -/
+def writeCRLF (m : Metrics) : Bytes := unlinesCRLF (writeLinesWith m (italicText m.italicAngle))
+
+/-- the reader does not see the difference between `\n` and `\r\n` in a written file -/
+theorem readCore_writeCRLF (m : Metrics) (h : WF m) : readCore (writeCRLF m) = readCore (write m) := by
+  have hia : NoNL (italicText m.italicAngle) := NoNL_plain _ (italicText_plain _)
+  unfold readCore writeCRLF write
+  rw [scanLines_unlinesCRLF _ (lines_NoNL m h _ hia), scanLines_unlines _ (lines_NoNL m h _ hia)]
+
+/-! ## part 7: the reader only looks at the tokens -/
+
+/-- the `key value …` groups of a character metrics line that the reader looks at: the fields of
+the `;`-separated pieces with at least two fields -/
+def groups (line : Bytes) : List (List Bytes) :=
+  ((splitOn 59 line).map fields).filter (fun f => decide (2 ≤ f.length))
+
+/-- `charKV` as a function of the fields -/
+def charKVf (c : CharLine) (ff : List Bytes) : Res CharLine :=
+  match ff with
+  | k :: v :: rest =>
+    if k = kC then
+      match atoi v with
+      | some n => .ok { c with code := n }
+      | none => .error
+    else if k = kWX then
+      match atoi v with
+      | some n => .ok { c with width := wrap16 n }
+      | none => .error
+    else if k = kN then .ok { c with name := v }
+    else if k = kB then
+      match rest with
+      | [b, cc, d] =>
+        (parseFloat v).bind fun llx =>
+        (parseFloat b).bind fun lly =>
+        (parseFloat cc).bind fun urx =>
+        (parseFloat d).bind fun ury =>
+        .ok { c with bbox := ⟨llx, lly, urx, ury⟩ }
+      | _ => .ok c
+    else if k = kL then
+      match rest with
+      | l :: _ => .ok { c with ligs := upsert v l c.ligs }
+      | [] => .ok c
+    else .ok c
+  | _ => .ok c
+
+theorem charKV_eq (c : CharLine) (kv : Bytes) : charKV c kv = charKVf c (fields kv) := rfl
+
+def charKVfs : CharLine → List (List Bytes) → Res CharLine
+  | c, [] => .ok c
+  | c, ff :: rest => (charKVf c ff).bind fun c' => charKVfs c' rest
+
+theorem charKVf_short (c : CharLine) (ff : List Bytes) (h : ¬ 2 ≤ ff.length) : charKVf c ff = .ok c := by
+  cases ff with
+  | nil => rfl
+  | cons a as =>
+    cases as with
+    | nil => rfl
+    | cons b bs => simp at h
+
+theorem charKVs_groups (kvs : List Bytes) : ∀ c : CharLine,
+    charKVs c kvs = charKVfs c ((kvs.map fields).filter (fun f => decide (2 ≤ f.length))) := by
+  induction kvs with
+  | nil => intro c; rfl
+  | cons kv rest ih =>
+    intro c
+    rw [charKVs, charKV_eq, List.map_cons, List.filter_cons]
+    by_cases h : 2 ≤ (fields kv).length
+    · simp only [h, decide_true, if_true, charKVfs]
+      cases hk : charKVf c (fields kv) with
+      | ok c1 => simp only [Res.bind]; exact ih c1
+      | error => rfl
+      | unsupported => rfl
+    · simp only [h, decide_false, Bool.false_eq_true, if_false]
+      rw [charKVf_short c _ h]
+      simp only [Res.bind]
+      exact ih c
+
+/-- two lines with the same tokens are read alike: the reader is blind to the kind and amount of
+white space, to empty `;` groups and to a missing final `;` -/
+theorem readLine_tokens (st : St) (l1 l2 : Bytes)
+    (hp : kEndCharMetrics.isPrefixOf l1 = kEndCharMetrics.isPrefixOf l2)
+    (hf : fields l1 = fields l2) (hg : groups l1 = groups l2) : readLine st l1 = readLine st l2 := by
+  unfold readLine
+  rw [hp]
+  have h1 : charLine st l1 = charLine st l2 := by
+    unfold charLine
+    rw [charKVs_groups, charKVs_groups]
+    unfold groups at hg
+    rw [hg]
+  have h2 : headerLine st l1 = headerLine st l2 := by
+    unfold headerLine
+    rw [hf]
+  rw [h1, h2]
+
+/-- pointwise relation between two files, line by line -/
+def SameTokens : List Bytes → List Bytes → Prop
+  | [], [] => True
+  | l1 :: r1, l2 :: r2 =>
+    (kEndCharMetrics.isPrefixOf l1 = kEndCharMetrics.isPrefixOf l2 ∧ fields l1 = fields l2 ∧
+      groups l1 = groups l2) ∧ SameTokens r1 r2
+  | _, _ => False
+
+theorem readLines_tokens (ls1 : List Bytes) : ∀ (ls2 : List Bytes) (st : St), SameTokens ls1 ls2 →
+    readLines st ls1 = readLines st ls2 := by
+  induction ls1 with
+  | nil =>
+    intro ls2 st h
+    cases ls2 with
+    | nil => rfl
+    | cons _ _ => exact absurd h (by simp [SameTokens])
+  | cons l1 r1 ih =>
+    intro ls2 st h
+    cases ls2 with
+    | nil => exact absurd h (by simp [SameTokens])
+    | cons l2 r2 =>
+      obtain ⟨⟨hp, hf, hg⟩, hr⟩ := h
+      rw [readLines, readLines, readLine_tokens st l1 l2 hp hf hg]
+      cases readLine st l2 with
+      | ok s => simp only [Res.bind]; exact ih r2 s hr
+      | error => rfl
+      | unsupported => rfl
+
+/-- two texts whose lines carry the same tokens give the same result -/
+theorem readCore_tokens (t1 t2 : Bytes) (h : SameTokens (scanLines t1) (scanLines t2)) :
+    readCore t1 = readCore t2 := by
+  unfold readCore
+  rw [readLines_tokens _ _ _ h]
 
 end PsVerif.Proofs.AFM
